@@ -481,6 +481,11 @@ fn gen_bad(c: Cl) -> Vec<(&'static str, J)> {
             v.push(("latin1:c1 control", json!("a\u{85}b")));
             v.push(("latin1:tab", json!("a\tb")));
             v.push(("latin1:U+0100", json!("a\u{100}")));
+            // characters that LOOK like Latin-1 punctuation or letters (or are in Windows-1252) but are not in ISO 8859-1
+            for c in ['\u{2018}', '\u{2019}', '\u{201a}', '\u{201c}', '\u{201d}', '\u{2013}', '\u{2014}', '\u{2010}', '\u{2011}', '\u{2212}', '\u{2026}', '\u{20ac}', '\u{152}', '\u{153}', '\u{160}',
+                      '\u{178}', '\u{17d}', '\u{2bc}', '\u{2b9}', '\u{ff07}', '\u{ff0d}', '\u{2003}', '\u{202f}', '\u{200b}', '\u{feff}', '\u{301}', '\u{308}', '\u{131}', '\u{141}', '\u{391}', '\u{410}'] {
+                v.push(("latin1:lookalike", json!(format!("O{c}Brien"))));
+            }
             v.push(("latin1:cjk", json!("李")));
             v.push(("latin1:emoji", json!("\u{1F600}")));
             v.push(("latin1:151 chars upper", json!("é".repeat(151))));
